@@ -52,3 +52,42 @@ def src_lines(path, start, end=None):
     with open(os.path.join(REPO, path)) as f:
         ls = f.readlines()
     return ''.join(ls[start - 1:(end or start)])
+
+
+def sym_mutf8():
+    """the mutf8 package's own pure-Python decoder/encoder, loaded through the same AST rewrite so that it can run on
+    symbolic bytes (the compiled cmutf8 extension the repo normally binds cannot)"""
+    if 'mutf8' not in _mods:
+        import ast
+        import types
+        import importlib.util
+        hook.install()
+        spec = importlib.util.find_spec('mutf8.mutf8')
+        src = open(spec.origin).read()
+        tree = ast.fix_missing_locations(hook.Rewrite('mutf8.mutf8').visit(ast.parse(src)))
+        mod = types.ModuleType('vf_sym_mutf8')
+        from .sstr import sx_chr, sx_ord
+        mod.chr = sx_chr
+        mod.ord = sx_ord
+        exec(compile(tree, spec.origin, 'exec'), mod.__dict__)
+        _mods['mutf8'] = mod
+    return _mods['mutf8']
+
+
+def bind_sym_mutf8():
+    """bind the symbolic decoder where the repo binds the C one: androguard.core.mutf8 and the dex module's `mutf8`"""
+    dex = dexmod()
+    from androguard.core import mutf8 as wrapper
+    sm = sym_mutf8()
+    real_dec = getattr(wrapper, '_vf_real_decode', None) or wrapper.decode_modified_utf8
+    wrapper._vf_real_decode = real_dec
+
+    def dec(s):
+        if isinstance(s, (bytes, bytearray)):
+            return real_dec(s)
+        return sm.decode_modified_utf8(s)
+    if wrapper.decode is wrapper.decode_modified_utf8 or getattr(wrapper.decode, '_vf', False):
+        wrapper.decode = dec            # the alias `decode = decode_modified_utf8` of the unchanged tree
+    wrapper.decode_modified_utf8 = dec  # a wrapper function defined in the module looks the name up at call time
+    dec._vf = True
+    return wrapper
